@@ -118,7 +118,7 @@ def c12_2(R):
                     absent = False
                     for c, truth, d in descs:
                         if c.kind == "call" and call_on_field(b, c.call, ("HashMap::contains_key",), STREAMS) and not truth:
-                            if trace(b, c.call.args[1]).describe() == kdesc or trace(b, c.call.args[1]).root[:2] == trace(b, t.args[1]).root[:2]:
+                            if trace(b, c.call.args[1]).key() == trace(b, t.args[1]).key():
                                 absent = True
                     if absent:
                         R.ok("insert=>key-absent", fn, "contains_key(&recv_key) = false for the inserted key")
